@@ -62,7 +62,7 @@ def run_plan(case):
             from . import tracefs
 
             tracefs.clear_flaky()
-        if case.get("may_reject"):
+        if case.get("may_reject") and case["may_reject"] != "or-right":
             res["open"] = "rejected-ok"  # ... and so is accepting it: the format says nothing about what it should then read as
             return res
         ex = oracle.expectations(b, files=tuple(case.get("files", ("VOL", "LED", "IMG"))))
